@@ -145,6 +145,16 @@ func genC05(g *Gen, tier string) *Program {
 			}
 			ops = append(ops, Op{K: "keyfn", Name: pick(g, "", "p", "a+b"), Tags: m})
 		}
+		if g.Bool(25) {
+			// the caller goes on using the maps it handed to Tagged (C04: they were
+			// copied): what was recorded must still come out under the tags of the
+			// time of the call
+			for i, op := range ops {
+				if op.K == "tag" && g.Bool(60) {
+					ops = append(ops, Op{K: "mutmap", Ref: i})
+				}
+			}
+		}
 		p.Tasks = append(p.Tasks, ops)
 	}
 	if g.Bool(15) {
